@@ -20,16 +20,18 @@ Section RTReader.
   Notation bread := (bread FNMAX T_START T_CONTENT T_EOA T_EOF S).
   Notation bread_ready := (bread_ready FNMAX T_START T_CONTENT T_EOA T_EOF S).
   Notation bread_data := (bread_data S).
+  Notation next_block := (next_block FNMAX T_START T_CONTENT T_EOA T_EOF S).
 
-  (* read until a read returns no byte; sizes i is the buffer size of the i-th call *)
-  Fixpoint read_all (fuel : nat) (bs : bstate S) (sizes : nat -> N) (i : nat) (acc : bytes)
+  (* read until a read returns no byte; sizes i is the buffer size of the i-th call; zf is the
+     bound on consecutive empty content blocks given to every call (Reader.next_block) *)
+  Fixpoint read_all (zf fuel : nat) (bs : bstate S) (sizes : nat -> N) (i : nat) (acc : bytes)
     : bstate S * res bytes :=
     match fuel with
     | O => (bs, Err EFuel)
     | Datatypes.S f =>
-      match bread bs (sizes i) with
+      match bread zf bs (sizes i) with
       | (bs', Ok []) => (bs', Ok acc)
-      | (bs', Ok d) => read_all f bs' sizes (Datatypes.S i) (acc ++ d)
+      | (bs', Ok d) => read_all zf f bs' sizes (Datatypes.S i) (acc ++ d)
       | (bs', Err e) => (bs', Err e)
       | (bs', Crash c) => (bs', Crash c)
       end
@@ -52,6 +54,20 @@ Section RTReader.
     - rewrite Hbl, ser_blocks_app, ser_blocks_cons, <- !app_assoc. reflexivity.
     - rewrite Forall_forall in Hwf. apply Hwf. rewrite Hbl. apply in_or_app. right. left. reflexivity.
     - exact HRs.
+  Qed.
+
+  (* no block of a well-formed list is an empty FileContent: the reader's stepping over
+     empty blocks (next_block) never happens, whatever its fuel, even none *)
+  Lemma next_at zf j s done x rest : bl = done ++ x :: rest -> R s (len (ser_blocks done)) ->
+    exists s', next_block zf j s = (s', Ok (pb_of x)) /\ R s' (len (ser_blocks done) + hdr_len x).
+  Proof.
+    intros Hbl HRs. destruct (parse_at s done x rest Hbl HRs) as (s' & Hp & HR').
+    exists s'. split; [|exact HR'].
+    assert (Hw : wfb x).
+    { rewrite Forall_forall in Hwf. apply Hwf. rewrite Hbl. apply in_or_app. right. left. reflexivity. }
+    destruct zf; cbn [Reader.next_block]; rewrite Hp; destruct x as [i nm|i d|i h|]; cbn [pb_of]; try reflexivity.
+    all: destruct Hw as (_ & Hd & _); destruct (N.eqb_spec (len d) 0) as [E|_]; [lia|];
+      rewrite andb_false_r; reflexivity.
   Qed.
 
   Lemma pos_in_range done rest : bl = done ++ rest -> len (ser_blocks done) <= len (ser_blocks bl ++ post).
@@ -127,17 +143,17 @@ Section RTReader.
   Qed.
 
   (* the stream stands on a block of the file: FileContent or EndOfFile *)
-  Lemma bread_ready_hit fuel bs done x rest xs ds h n :
+  Lemma bread_ready_hit fuel zf bs done x rest xs ds h n :
     bl = done ++ x :: rest -> 0 < n ->
     R (b_src bs) (len (ser_blocks done)) ->
     b_id bs = id -> b_offs bs = offs ->
     Datatypes.S (b_cur bs) = length (run_offs id None 0 (done ++ [x])) ->
     x :: xs = map (BContent id) ds ++ [BEof id h] -> proj id rest = xs ->
-    exists bs' dd todo', bread_ready fuel bs n = (bs', Ok dd) /\ len dd <= n /\
+    exists bs' dd todo', bread_ready fuel zf bs n = (bs', Ok dd) /\ len dd <= n /\
       concat ds = dd ++ todo' /\ RI bs' todo' /\ (dd = [] -> concat ds = [] /\ b_mode bs' = BFinish).
   Proof.
     intros Hbl Hn HRs Hid Hoffs Hcur Hx Hproj.
-    destruct (parse_at _ done x rest Hbl HRs) as (s1 & Hp & HR1).
+    destruct (next_at zf (b_id bs) _ done x rest Hbl HRs) as (s1 & Hp & HR1).
     destruct ds as [|d0 ds]; cbn [map app] in Hx; injection Hx as -> ->.
     - (* EndOfFile *)
       exists (bset S bs s1 BFinish), [], [].
@@ -164,14 +180,14 @@ Section RTReader.
   Proof. rewrite nth_error_app2 by lia. rewrite Nat.sub_diag. reflexivity. Qed.
 
   (* Ready: at most one jump *)
-  Lemma bread_ready_spec fuel bs done rest ds h n :
+  Lemma bread_ready_spec fuel zf bs done rest ds h n :
     bl = done ++ rest -> 0 < n ->
     R (b_src bs) (len (ser_blocks done)) ->
     b_id bs = id -> b_offs bs = offs ->
     Datatypes.S (b_cur bs) = length (run_offs id None 0 done) ->
     is_id (last_id None done) id = true ->
     proj id rest = map (BContent id) ds ++ [BEof id h] ->
-    exists bs' dd todo', bread_ready (Datatypes.S fuel) bs n = (bs', Ok dd) /\ len dd <= n /\
+    exists bs' dd todo', bread_ready (Datatypes.S fuel) zf bs n = (bs', Ok dd) /\ len dd <= n /\
       concat ds = dd ++ todo' /\ RI bs' todo' /\ (dd = [] -> concat ds = [] /\ b_mode bs' = BFinish).
   Proof.
     intros Hbl Hn HRs Hid Hoffs Hcur Hlast Hproj.
@@ -182,13 +198,13 @@ Section RTReader.
     destruct skipped as [|y sk].
     - (* directly on a block of the file *)
       cbn [app] in Hbl.
-      apply (bread_ready_hit _ bs done x rest2 xs ds h n); auto.
+      apply (bread_ready_hit _ zf bs done x rest2 xs ds h n); auto.
       rewrite run_offs_app. cbn [Blocks.ser_block RoundTripBlocks.run_offs].
       rewrite Hlast. rewrite andb_false_r. cbn [app]. rewrite app_nil_r. exact Hcur.
     - (* a foreign block: parse it, jump to the next offset, which is x *)
       cbn [app] in Hbl.
       cbn [proj filter] in Hsk. destruct (has_id id y) eqn:Ey; [discriminate|].
-      destruct (parse_at _ done y (sk ++ x :: rest2) Hbl HRs) as (s1 & Hp & HR1).
+      destruct (next_at zf (b_id bs) _ done y (sk ++ x :: rest2) Hbl HRs) as (s1 & Hp & HR1).
       set (done2 := done ++ y :: sk).
       assert (Hbl2 : bl = done2 ++ x :: rest2) by (unfold done2; rewrite Hbl, <- app_assoc; reflexivity).
       assert (Hro : forall tl, run_offs id None 0 (done2 ++ x :: tl) =
@@ -206,14 +222,14 @@ Section RTReader.
       destruct (ref_sk _ _ _ HR s1 _ (FromStart (len (ser_blocks done2))) (len (ser_blocks done2)) HR1) as (s2 & Hsk2 & HR2).
       { apply target_start. apply (pos_in_range done2 (x :: rest2) Hbl2). }
       set (bs2 := mkB s2 BReady id (Datatypes.S (b_cur bs)) offs).
-      destruct (bread_ready_hit fuel bs2 done2 x rest2 xs ds h n Hbl2 Hn) as (bs' & dd & todo' & Hbr & Hrest); auto.
+      destruct (bread_ready_hit fuel zf bs2 done2 x rest2 xs ds h n Hbl2 Hn) as (bs' & dd & todo' & Hbr & Hrest); auto.
       { cbn [bs2 b_cur]. pose proof (Hro []) as Hro'. rewrite Hro'. cbn [RoundTripBlocks.run_offs].
         rewrite app_length. cbn [length]. lia. }
       exists bs', dd, todo'. split; [|exact Hrest].
       cbn [Reader.bread_ready]. rewrite Hp.
       assert (Hskip : (let b1 := bset S bs s1 BReady in
                 match Reader.bmove S b1 with
-                | (b2, Ok _) => bread_ready fuel b2 n
+                | (b2, Ok _) => bread_ready fuel zf b2 n
                 | (b2, Err e) => (b2, Err e)
                 | (b2, Crash c) => (b2, Crash c)
                 end) = (bs', Ok dd)).
@@ -230,12 +246,12 @@ Section RTReader.
   Qed.
 
   (* one call of read with a positive buffer size *)
-  Theorem bread_step bs todo n : RI bs todo -> 0 < n ->
-    exists bs' dd todo', bread bs n = (bs', Ok dd) /\ len dd <= n /\ todo = dd ++ todo' /\
+  Theorem bread_step zf bs todo n : RI bs todo -> 0 < n ->
+    exists bs' dd todo', bread zf bs n = (bs', Ok dd) /\ len dd <= n /\ todo = dd ++ todo' /\
       RI bs' todo' /\ (dd = [] -> todo = [] /\ b_mode bs' = BFinish).
   Proof.
     intros HRI Hn. destruct HRI.
-    - destruct (bread_ready_spec (length (b_offs bs)) bs done rest ds h n Hbl Hn Hpos Hid Hoffs Hcur Hlast Hproj)
+    - destruct (bread_ready_spec (length (b_offs bs)) zf bs done rest ds h n Hbl Hn Hpos Hid Hoffs Hcur Hlast Hproj)
         as (bs' & dd & todo' & Hbr & Hdn & Htd & HRI' & Hemp).
       exists bs', dd, todo'. unfold Reader.bread. rewrite Hmode, Hbr.
       split; [reflexivity|]. split; [exact Hdn|]. split; [subst todo; exact Htd|]. split; [exact HRI'|].
@@ -252,12 +268,12 @@ Section RTReader.
 
   (* reading to the end with any positive buffer sizes delivers exactly todo *)
   Theorem read_all_spec sizes : (forall i, 0 < sizes i) ->
-    forall fuel bs todo i acc, RI bs todo -> (length todo < fuel)%nat ->
-    exists bs', read_all fuel bs sizes i acc = (bs', Ok (acc ++ todo)) /\ b_mode bs' = BFinish.
+    forall zf fuel bs todo i acc, RI bs todo -> (length todo < fuel)%nat ->
+    exists bs', read_all zf fuel bs sizes i acc = (bs', Ok (acc ++ todo)) /\ b_mode bs' = BFinish.
   Proof.
-    intros Hsz. induction fuel as [|f IH]; intros bs todo i acc HRI Hf; [lia|].
+    intros Hsz zf. induction fuel as [|f IH]; intros bs todo i acc HRI Hf; [lia|].
     cbn [read_all].
-    destruct (bread_step bs todo (sizes i) HRI (Hsz i)) as (bs' & dd & todo' & -> & Hdn & Htd & HRI' & Hemp).
+    destruct (bread_step zf bs todo (sizes i) HRI (Hsz i)) as (bs' & dd & todo' & -> & Hdn & Htd & HRI' & Hemp).
     destruct dd as [|x dd].
     - destruct (Hemp eq_refl) as [-> Hm]. exists bs'. rewrite app_nil_r. auto.
     - destruct (IH bs' todo' (Datatypes.S i) (acc ++ x :: dd) HRI') as (bs'' & Hra & Hm).
